@@ -7,7 +7,9 @@ ID = 'C15'
 # fixed witnesses: addresses at and above 2^32, with zero groups, for the type singleton, the enum singleton and extern values
 ENGINE_B = {'template': 't_extern', 'kinds': ['singleton_', 'externval_'], 'max_quick': 14, 'max_thorough': 64,
             'fixed': [[8, 1, 0x141234560, 1, 0x7FF612345678, 2, 1, 0x100000000, 3, 1, 1, 0x140001000, 7, 0],
-                      [8, 1, 0xFFFFFFFF, 1, 0x10000, 1, 1, 0x100000010, 0, 1], [8, 1, 0x7FFFFFFFFFFFFFF0, 1, 0x1000000000000, 1, 1, 0xFFFF, 8, 1]]}
+                      [8, 1, 0xFFFFFFFF, 1, 0x10000, 1, 1, 0x100000010, 0, 1], [8, 1, 0x7FFFFFFFFFFFFFF0, 1, 0x1000000000000, 1, 1, 0xFFFF, 8, 1],
+                      # a singleton type without fields (size 0)
+                      [8, 2, 0x140005000, 0, 0, 1, 1, 0x1000, 2, 1]]}
 TYPES = {0: ['raw', 'u32'], 1: ['raw', 'u64'], 2: ['const*', ['raw', 'm::T']], 3: ['mut*', ['raw', 'u8']], 5: ['raw', 'bool'],
          7: ['array', ['raw', 'u32'], 4], 8: ['const*', ['raw', 'm::E']]}
 TXT = {0: 'u32', 1: 'u64', 2: '*const T', 3: '*mut u8', 4: 'Nope', 5: 'bool', 6: '*const Nope', 7: '[u32; 4]', 8: '*const E'}
@@ -26,7 +28,7 @@ def bounds(tier):
 
 
 def assume(a, ps, n):
-    A = [a[0] == ps, z3.ULE(a[1], 1), z3.ULE(a[3], 1), a[5] == n]
+    A = [a[0] == ps, z3.ULE(a[1], 2), z3.ULE(a[3], 1), a[5] == n]
     for i in range(n):
         b = 6 + 4 * i
         A += [z3.ULE(a[b], 1), z3.ULE(a[b + 2], 8), z3.ULE(a[b + 3], 1)]
@@ -87,7 +89,7 @@ def describe(template, args):
         v &= (1 << 64) - 1
         return v - (1 << 64) if v >> 63 else v
     out = ['// pointer size %d' % a[0]]
-    out.append('%spub type T { pub a: *const u8 }' % ('#[singleton(%d)] ' % s64(a[2]) if a[1] else ''))
+    out.append('%spub type T { %s}' % ('#[singleton(%d)] ' % s64(a[2]) if a[1] else '', '' if a[1] == 2 else 'pub a: *const u8 '))
     out.append('%spub enum E: u32 { A }' % ('#[singleton(%d)] ' % s64(a[4]) if a[3] else ''))
     for i in range(min(a[5], 3)):
         b = 6 + 4 * i
